@@ -147,7 +147,7 @@ func expect(m Model, timers []TimerCfg, block int, tOff int64, plan []Dev) Expec
 				case oOK:
 					ex.M[sub][ti][kind] = MarkV{Set: true, Block: int32(block), Epoch: epoch}
 					ex.C[sub]++
-				case oOOG:
+				case oOOG, oGasOvf:
 					return aborted()
 				}
 			}
@@ -272,6 +272,10 @@ func Check(w *World, prev Model, ex *Expect, tOff int64, res *BlockResult, full 
 		if oog, ok := res.PanicVal.(storetypes.ErrorOutOfGas); ok {
 			if !ex.Abort {
 				fail("propagation_oog", "BeginBlocker propagated an out-of-gas (%q) although no subscriber ran out of gas", oog.Descriptor)
+			}
+		} else if ovf, ok := res.PanicVal.(storetypes.ErrorGasOverflow); ok {
+			if !ex.Abort {
+				fail("propagation_oog", "BeginBlocker propagated a gas overflow (%q) although no subscriber overflowed", ovf.Descriptor)
 			}
 		} else {
 			fail("propagation_other", "BeginBlocker propagated a panic that is not out-of-gas: %T %v", res.PanicVal, res.PanicVal)
